@@ -11,7 +11,6 @@ for meta_p in sorted(glob.glob("/verif/seeded/*/meta.json")):
     try:
         subprocess.run(["git", "-C", "/repo", "worktree", "add", "-q", "--detach", wt, "HEAD"], check=True)
         shutil.copy("/repo/pydra/utils/_version.py", os.path.join(wt, "pydra/utils/_version.py"))  # git-ignored, generated at install time
-    shutil.copy("/repo/pydra/utils/_version.py", os.path.join(wt, "pydra/utils/_version.py"))  # git-ignored, generated at install time
         ap = subprocess.run(["git", "-C", wt, "apply", os.path.join(d, "patch.diff")], capture_output=True, text=True)
         if ap.returncode:
             meta["tests"] = "patch does not apply: " + ap.stderr[-200:]
